@@ -262,12 +262,16 @@ def r18_3(ctx: Ctx, E: Effects, rule="R18.3"):
     from ..pat import find as pfind4
     rp = [p_ for p_ in rs.params if p_ != "self"][0]
     branches = []
+    from ..cfg import branches as cbranches, ctext as cctext
+    forms = {"list": [cctext("isinstance(%s, list) and isinstance(%s[0], int)" % (rp, rp)), cctext("isinstance(%s, list)" % rp)],
+             "int": [cctext("isinstance(%s, int)" % rp)]}
     for n_ in walk_no_nested(rs.node):
-        if isinstance(n_, ast.If) and norm(n_.test).replace(" ", "") in (
-                ("isinstance(%s, list) and isinstance(%s[0], int)" % (rp, rp)).replace(" ", ""), ("isinstance(%s, list)" % rp).replace(" ", "")):
-            branches.append(("list", n_.body))
-        if isinstance(n_, ast.If) and norm(n_.test).replace(" ", "") == ("isinstance(%s, int)" % rp).replace(" ", ""):
-            branches.append(("int", n_.body))
+        if isinstance(n_, ast.If):
+            ct_, wt_, wf_ = cbranches(n_)
+            for kind_, fs_ in forms.items():
+                for ft_, fp_ in fs_:
+                    if ct_ == ft_:
+                        branches.append((kind_, [x for x in (wt_ if fp_ else wf_) if not isinstance(x, ast.If)]))
     okb = len(branches) == 2
     for kind, body in branches:
         loops_ = [x for st_ in body for x in ast.walk(st_) if isinstance(x, ast.For)]
